@@ -1,64 +1,20 @@
 use clarabel::verif_hooks::dense as d;
 use d::Opnd;
 fn o(m: usize, n: usize, data: Vec<f64>, shape: u8) -> Opnd { Opnd { m, n, data, view: None, shape } }
-fn g<F: FnOnce() -> String + std::panic::UnwindSafe>(name: &str, f: F) {
-    let r = std::panic::catch_unwind(f);
-    println!("{}: {}", name, match r { Ok(s) => s, Err(e) => format!("PANIC {:?}", e.downcast_ref::<String>().cloned().or(e.downcast_ref::<&str>().map(|s| s.to_string()))) });
-}
 fn main() {
     let _ = vharness::Rng::new(1);
-    g("gemm k=0 NN beta=2", || format!("{:?}", d::mul(&o(2,2,vec![1.,2.,3.,4.],b'N'), &o(2,0,vec![],b'N'), &o(0,2,vec![],b'N'), 1.0, 2.0)));
-    g("gemm k=0 TN beta=2", || format!("{:?}", d::mul(&o(2,2,vec![1.,2.,3.,4.],b'N'), &o(0,2,vec![],b'T'), &o(0,2,vec![],b'N'), 1.0, 2.0)));
-    g("gemm k=0 NT beta=0", || format!("{:?}", d::mul(&o(2,2,vec![1.,2.,3.,f64::NAN],b'N'), &o(2,0,vec![],b'N'), &o(2,0,vec![],b'T'), 1.0, 0.0)));
-    g("gemm alpha=0 NaN A beta=1", || format!("{:?}", d::mul(&o(1,1,vec![3.],b'N'), &o(1,1,vec![f64::NAN],b'N'), &o(1,1,vec![1.],b'N'), 0.0, 1.0)));
-    g("gemm beta=0 NaN C", || format!("{:?}", d::mul(&o(1,1,vec![f64::NAN],b'N'), &o(1,1,vec![2.],b'N'), &o(1,1,vec![3.],b'N'), 1.0, 0.0)));
-    g("gemm m=0", || format!("{:?}", d::mul(&o(0,2,vec![],b'N'), &o(0,3,vec![],b'N'), &o(3,2,vec![1.;6],b'N'), 1.0, 0.0)));
-    g("gemm S view", || format!("{:?}", d::mul(&o(2,2,vec![0.;4],b'N'), &o(2,2,vec![1.,0.,2.,3.],b'S'), &o(2,2,vec![1.,0.,0.,1.],b'N'), 1.0, 0.0)));
-    g("gemv m=0 N", || format!("{:?}", d::gemv(&o(0,2,vec![],b'N'), &[1.,2.], &[], 1.0, 2.0)));
-    g("gemv n=0 N beta=2", || format!("{:?}", d::gemv(&o(2,0,vec![],b'N'), &[], &[1.,2.], 1.0, 2.0)));
-    g("gemv n=0 T", || format!("{:?}", d::gemv(&o(2,0,vec![],b'T'), &[1.,2.], &[], 1.0, 2.0)));
-    g("gemv m=0 T beta=2", || format!("{:?}", d::gemv(&o(0,2,vec![],b'T'), &[], &[1.,2.], 1.0, 2.0)));
-    g("gemv beta=0 NaN y", || format!("{:?}", d::gemv(&o(1,1,vec![2.],b'N'), &[3.], &[f64::NAN], 1.0, 0.0)));
-    g("gemv alpha=0 NaN A", || format!("{:?}", d::gemv(&o(1,1,vec![f64::NAN],b'N'), &[3.], &[5.], 0.0, 1.0)));
-    g("symv n=0", || format!("{:?}", d::symv(&(0,0,vec![]), &[], &[], 1.0, 2.0)));
-    g("symv 2", || format!("{:?}", d::symv(&(2,2,vec![1.,99.,2.,3.]), &[1.,1.], &[f64::NAN,1.], 1.0, 0.0)));
-    g("symv nonsquare", || format!("{:?}", d::symv(&(2,3,vec![1.;6]), &[1.,1.], &[0.,1.], 1.0, 0.0)));
-    g("syrk k=0 beta=2", || format!("{:?}", d::syrk(&(2,2,vec![1.,2.,3.,4.]), &o(2,0,vec![],b'N'), 1.0, 2.0)));
-    g("syrk T k=0 beta=2", || format!("{:?}", d::syrk(&(2,2,vec![1.,2.,3.,4.]), &o(0,2,vec![],b'T'), 1.0, 2.0)));
-    g("syrk beta=0 NaN", || format!("{:?}", d::syrk(&(2,2,vec![f64::NAN;4]), &o(2,1,vec![1.,2.],b'N'), 1.0, 0.0)));
-    g("syrk n=0", || format!("{:?}", d::syrk(&(0,0,vec![]), &o(0,3,vec![],b'N'), 1.0, 0.0)));
-    g("syr2k k=0 beta=2", || format!("{:?}", d::syr2k(&o(2,2,vec![1.,2.,3.,4.],b'N'), &o(2,0,vec![],b'N'), &o(2,0,vec![],b'N'), 1.0, 2.0)));
-    g("syr2k beta=0 NaN", || format!("{:?}", d::syr2k(&o(2,2,vec![f64::NAN;4],b'N'), &o(2,1,vec![1.,2.],b'N'), &o(2,1,vec![3.,4.],b'N'), 1.0, 0.0)));
-    g("chol 0x0", || { let mut c = d::Chol::new(0); format!("{:?}", c.factor(&o(0,0,vec![],b'N'))) });
-    g("chol 1x1", || { let mut c = d::Chol::new(1); format!("{:?} {:?}", c.factor(&o(1,1,vec![4.],b'N')), c.L()) });
-    g("chol 1x1 neg", || { let mut c = d::Chol::new(1); format!("{:?} {:?}", c.factor(&o(1,1,vec![-4.],b'N')), c.L()) });
-    g("chol 1x1 nan", || { let mut c = d::Chol::new(1); format!("{:?} {:?}", c.factor(&o(1,1,vec![f64::NAN],b'N')), c.L()) });
-    g("chol 2x2 indef", || { let mut c = d::Chol::new(2); format!("{:?} {:?}", c.factor(&o(2,2,vec![1.,77.,2.,1.],b'N')), c.L()) });
-    g("chol dim", || { let mut c = d::Chol::new(2); format!("{:?} {:?}", c.factor(&o(1,1,vec![1.],b'N')), c.L()) });
-    g("chol resize garbage", || { let mut c = d::Chol::new(3); let r1 = c.factor(&o(3,3,vec![4.,0.,0.,2.,5.,0.,2.,1.,6.],b'N')); let l1 = c.L(); c.resize(2); let r2 = c.factor(&o(2,2,vec![4.,0.,2.,5.],b'N')); format!("{:?} {:?} {:?} {:?}", r1, l1, r2, c.L()) });
-    g("chol solve wrong rows", || { let mut c = d::Chol::new(2); c.factor(&o(2,2,vec![4.,0.,2.,5.],b'N')).0.unwrap(); format!("{:?}", c.solve(&o(1,1,vec![1.],b'N'))) });
-    g("chol solve 3 rows", || { let mut c = d::Chol::new(2); c.factor(&o(2,2,vec![4.,0.,2.,5.],b'N')).0.unwrap(); format!("{:?}", c.solve(&o(3,1,vec![1.,2.,3.],b'N'))) });
-    g("chol solve nrhs=0", || { let mut c = d::Chol::new(2); c.factor(&o(2,2,vec![4.,0.,2.,5.],b'N')).0.unwrap(); format!("{:?}", c.solve(&o(2,0,vec![],b'N'))) });
-    g("eig 0x0", || { let mut e = d::Eig::new(0); format!("{:?} {:?}", e.eigvals(&o(0,0,vec![],b'N')), e.work_lens()) });
-    g("eig 1x1", || { let mut e = d::Eig::new(1); format!("{:?} {:?} {:?}", e.eigen(&o(1,1,vec![3.],b'N')), e.lambda(), e.V()) });
-    g("eig 2x2", || { let mut e = d::Eig::new(2); format!("{:?} {:?} {:?} {:?}", e.eigen(&o(2,2,vec![2.,99.,1.,2.],b'N')), e.lambda(), e.V(), e.work_lens()) });
-    g("eig nan", || { let mut e = d::Eig::new(2); format!("{:?} {:?} {:?}", e.eigen(&o(2,2,vec![2.,99.,f64::NAN,2.],b'N')), e.lambda(), e.V()) });
-    g("eig inf", || { let mut e = d::Eig::new(2); format!("{:?} {:?} {:?}", e.eigen(&o(2,2,vec![2.,99.,f64::INFINITY,2.],b'N')), e.lambda(), e.V()) });
-    g("svd 0x0", || { let mut s = d::Svd::new(0,0); format!("{:?} {:?}", s.factor(&o(0,0,vec![],b'N')), s.work_lens()) });
-    g("svd 0x0 qr", || { let mut s = d::Svd::new(0,0); s.set_qr(true); format!("{:?} {:?}", s.factor(&o(0,0,vec![],b'N')), s.work_lens()) });
-    g("svd 0x2", || { let mut s = d::Svd::new(0,2); format!("{:?} {:?}", s.factor(&o(0,2,vec![],b'N')), s.work_lens()) });
-    g("svd 2x0", || { let mut s = d::Svd::new(2,0); format!("{:?} {:?}", s.factor(&o(2,0,vec![],b'N')), s.work_lens()) });
-    g("svd 2x3", || { let mut s = d::Svd::new(2,3); format!("{:?} {:?} {:?}", s.factor(&o(2,3,vec![3.,2.,2.,3.,2.,-2.],b'N')), s.factors(), s.work_lens()) });
-    g("svd 2x3 qr", || { let mut s = d::Svd::new(2,3); s.set_qr(true); format!("{:?} {:?} {:?}", s.factor(&o(2,3,vec![3.,2.,2.,3.,2.,-2.],b'N')), s.factors(), s.work_lens()) });
-    g("svd nan", || { let mut s = d::Svd::new(2,2); format!("{:?} {:?}", s.factor(&o(2,2,vec![3.,2.,f64::NAN,3.],b'N')), s.factors()) });
-    g("svd nan qr", || { let mut s = d::Svd::new(2,2); s.set_qr(true); format!("{:?} {:?}", s.factor(&o(2,2,vec![3.,2.,f64::NAN,3.],b'N')), s.factors()) });
-    g("svd solve 0x0", || { let mut s = d::Svd::new(0,0); format!("{:?}", s.solve(&o(0,0,vec![],b'N'))) });
-    g("lu 0x0", || { let mut l = d::Lu::new(); format!("{:?}", l.lusolve(&(0,0,vec![]), &(0,0,vec![]))) });
-    g("lu 0x0 nrhs2", || { let mut l = d::Lu::new(); format!("{:?}", l.lusolve(&(0,0,vec![]), &(0,2,vec![]))) });
-    g("lu singular", || { let mut l = d::Lu::new(); format!("{:?} {:?}", l.lusolve(&(2,2,vec![1.,2.,2.,4.]), &(2,1,vec![1.,1.])), l.ipiv()) });
-    g("lu nan", || { let mut l = d::Lu::new(); format!("{:?} {:?}", l.lusolve(&(2,2,vec![1.,f64::NAN,2.,4.]), &(2,1,vec![1.,1.])), l.ipiv()) });
-    g("lu ok nrhs0", || { let mut l = d::Lu::new(); format!("{:?} {:?}", l.lusolve(&(2,2,vec![1.,3.,2.,4.]), &(2,0,vec![])), l.ipiv()) });
-    g("colnormsym", || format!("{:?}", d::col_norms_sym(&(1,1,vec![-3.]), &[0.])));
-    g("from_rows empty", || format!("{:?} {:?}", d::from_rows(&[]), d::from_rows(&[vec![], vec![]])));
-    g("from_rows ragged", || format!("{:?}", d::from_rows(&[vec![1.], vec![]])));
+    let args: Vec<String> = std::env::args().collect();
+    let m: usize = args[1].parse().unwrap();
+    let n: usize = args[2].parse().unwrap();
+    let kind = args[3].as_str();
+    let pos: usize = args[4].parse().unwrap();
+    let qr = args[5] == "qr";
+    let mut a = vec![0.0; m * n];
+    for j in 0..n { for i in 0..m { a[i + m * j] = 1.0 / (1.0 + i as f64 + 2.0 * j as f64) + if i == j { 2.0 } else { 0.0 }; } }
+    let pos = pos.min(m * n - 1);
+    match kind { "nan" => a[pos] = f64::NAN, "inf" => a[pos] = f64::INFINITY, "ninf" => a[pos] = f64::NEG_INFINITY, "max" => a[pos] = f64::MAX, "tiny" => for x in a.iter_mut() { *x *= 1e-300 }, "huge" => for x in a.iter_mut() { *x *= 1e300 }, "den" => a[pos] = 5e-324, _ => {} }
+    let mut e = d::Svd::new(m, n);
+    e.set_qr(qr);
+    let r = e.factor(&o(m, n, a, b'N'));
+    println!("{:?} {:?}", r.0, e.factors().0);
 }
